@@ -29,9 +29,26 @@ theorem born_afterDeadline {s : State} {t : Tid} {m n : NoteId} {nt : Dl} {dk : 
     · left; exact hb
   · left; exact hb
 
-theorem na_afterDeadline {s : State} {t : Tid} {m n : NoteId} {nt : Dl} {dk : DK} :
-    NA (afterDeadline s t m nt dk) n ↔ NA s n := by
-  simp [NA, State.Notified]
+theorem na_afterDeadline {s : State} {t : Tid} {m n : NoteId} {nt : Dl} {dk : DK}
+    (hd : ∀ par dl, dk = .newSelf par dl → (s.notes m).expiry = dl) (h : NA s n) :
+    NA (afterDeadline s t m nt dk) n := by
+  refine ⟨?_, by simpa using h.2⟩
+  rcases h.1 with hf | he
+  · left; simpa using hf
+  · right
+    rw [afterDeadline_f_expiry]
+    by_cases hnm : n = m
+    · subst hnm
+      cases dk with
+      | newSelf par dl =>
+        cases par with
+        | none => simpa using he
+        | some p =>
+          have := hd _ _ rfl
+          rw [he] at this
+          simp [← this, Dl.min_zero_left]
+      | _ => simpa using he
+    · rw [newExpiryVal_ne s dk hnm]; exact he
 
 /-- A note that `nsync_note_new` marks as born notified is notified. -/
 theorem step_born_na {s s' : State} {e : Event} (hN : InvN s)
@@ -49,7 +66,7 @@ theorem step_born_na {s s' : State} {e : Event} (hN : InvN s)
   all_goals (try (
     rcases born_afterDeadline hb with h | ⟨h1, h2⟩
     · left; exact h
-    · right; subst h1; rw [na_afterDeadline]
+    · right; subst h1; refine na_afterDeadline hc.2.1.2 ?_
       first
         | exact ⟨(hc.2.2 rfl).1 h2, hc.1⟩
         | exact ⟨Or.inl (by assumption), hc.1⟩))
@@ -64,22 +81,25 @@ theorem step_born_na {s s' : State} {e : Event} (hN : InvN s)
         exact ⟨by simpa [State.Notified] using hc.2.2 rfl, by simpa using hc.1⟩
       · left; exact hb
     · left; exact hb))
-  -- nsync_note_new finds the parent notified (note.c:181-182)
-  · rename_i n0 p0 dl0 _ hnp _ _ _ _ _
-    simp only [setPc_bornNotified, markBorn_bornNotified, setExpiry_bornNotified, upd_apply] at hb
+  -- notify returns to the nsync_note_is_notified of nsync_note_new
+  all_goals (try (
+    rename_i nk hpc
+    cases nk with
+    | ofApi => left; simpa [afterNotify] using hb
+    | ofDeadline dk =>
+      simp only [afterNotify] at hb ⊢
+      rcases born_afterDeadline hb with h | ⟨h1, _⟩
+      · left; exact h
+      · right; subst h1
+        exact na_afterDeadline hc.2.1.2 ⟨hc.2.2 rfl, hc.1⟩))
+  -- nsync_note_new finds the parent notified: the store to the new note's flag
+  · simp only [setPc_bornNotified, markBorn_bornNotified, upd_apply] at hb
     split at hb
     · next e =>
       subst e
-      have hz : (s.notes p0).ntime = some 0 := by simpa [Dl.pos] using hnp
       right
-      refine ⟨Or.inr ?_, by simpa using hc.1⟩
-      simp [hz]
-    · left; exact hb
-  · rename_i n0 p0 dl0 _ hnp hlt _ _ _ _
-    exfalso
-    have hz : (s.notes p0).ntime = some 0 := by simpa [Dl.pos] using hnp
-    rw [hz, Dl.lt_zero ((hc.2 rfl).2 ▸ (hc.2 rfl).1)] at hlt
-    exact hlt rfl
+      exact ⟨Or.inl (by simp), by simpa using hc.1⟩
+    · left; simpa using hb
 
 /-- The list of observations grows only when `nsync_note_is_notified` / `nsync_note_wait` return. -/
 theorem step_observed {s s' : State} {e : Event} (hs : step s e = .ok s') :
